@@ -10,6 +10,7 @@ package pc18
 import (
 	"fmt"
 	"reflect"
+	"strings"
 	"time"
 
 	"github.com/element-of-surprise/coercion/plugins"
@@ -176,9 +177,39 @@ var _ plugins.Plugin = (*plug)(nil)
 
 func (p *plug) Name() string { return p.name }
 
+// failMarker at the end of a request's Text makes the plugin fail permanently (used by the engine-run originals).
+const failMarker = "#fail"
+
+// Execute is only reached by the engine-run originals of the check (the clones themselves are never executed). It is
+// instant: a permanent error when the request's Text ends in failMarker, otherwise a response of the plugin's response
+// type made from the request. It is called from engine goroutines and touches nothing shared.
 func (p *plug) Execute(ctx context.Context, req any) (any, *plugins.Error) {
-	// never executed: C18 does not run the engine
-	return nil, &plugins.Error{Message: "pc18 plugins are never executed", Permanent: true}
+	if p.kind == reqNil {
+		return nil, nil
+	}
+	if err := p.ValidateReq(req); err != nil {
+		return nil, &plugins.Error{Code: 2, Message: err.Error(), Permanent: true}
+	}
+	rv := reflect.Indirect(reflect.ValueOf(req))
+	text := rv.FieldByName("Text").String()
+	if strings.HasSuffix(text, failMarker) {
+		return nil, &plugins.Error{Code: 7, Message: "scripted failure of " + text, Permanent: true,
+			Wrapped: &plugins.Error{Code: 8, Message: "cause"}}
+	}
+	resp := reflect.New(reflect.TypeOf(kinds[p.kind].resp()))
+	out := resp.Elem()
+	if kinds[p.kind].ptr {
+		out.Set(reflect.New(out.Type().Elem()))
+		out = out.Elem()
+	}
+	out.FieldByName("Text").SetString("done: " + text)
+	out.FieldByName("Num").SetInt(rv.FieldByName("Num").Int() + 1)
+	if f := out.FieldByName("Inner"); f.IsValid() {
+		f.FieldByName("Label").SetString(text)
+		f.FieldByName("Blob").SetBytes([]byte(text))
+		f.FieldByName("Tags").Set(reflect.ValueOf(map[string]string{"from": text}))
+	}
+	return resp.Elem().Interface(), nil
 }
 
 // ValidateReq accepts exactly the request type of the plugin and a non-empty Text. It does not look at secure-tagged
